@@ -1314,6 +1314,11 @@ impl Session {
 
                     // The request itself must not wait longer than the timeout either: a
                     // peer that stopped draining the connection blocks every writer.
+                    // The send time is taken before the write: the request frame is at the
+                    // head of its (possibly padded) packet, so the peer can answer while the
+                    // rest of the packet is still being written. An answer that arrives during
+                    // the write must count as the answer to this request.
+                    let sent_at = Instant::now();
                     let send_result = time::timeout(
                         heartbeat_state.timeout,
                         session.write_control_frame(Frame::control(Command::HeartRequest, 0)),
@@ -1321,7 +1326,7 @@ impl Session {
                     .await;
                     match send_result {
                         Ok(Ok(())) => {
-                            awaiting_since = Some(Instant::now());
+                            awaiting_since = Some(sent_at);
                         }
                         Ok(Err(e)) => {
                             tracing::error!(
